@@ -9,9 +9,9 @@
 #include "vsched.h"
 
 // ---- scenario rows ---------------------------------------------------------------------------------
-enum { F_2BLK, F_3BLK, F_BADCHECK_LAST, F_BAD_FIRST, F_TRUNC, F_UNSIZED_MID, F_EMPTY_MID, F_BADHDR, F_BADINDEX, F_BCJ_BAD, F_2STREAMS, F_BIGBLK, F_BAD_MID3, F_UNSUP_2ND, F_N };
-static const char *FN[] = { "2blk", "3blk", "badcheck-last", "bad-first", "trunc-mid", "unsized-mid", "empty-mid", "bad-blockheader", "bad-index", "bcj-bad-payload", "2streams+pad", "big-40k", "bad-mid-of-3", "unsupported-filter-2nd" };
-typedef struct { int file, threads, inchunk, outchunk, timeout; uint32_t flags; uint64_t mlt, mls; int raise, early, reinit, probes; int bp, bt, bs; int tier; } row;
+enum { F_2BLK, F_3BLK, F_BADCHECK_LAST, F_BAD_FIRST, F_TRUNC, F_UNSIZED_MID, F_EMPTY_MID, F_BADHDR, F_BADINDEX, F_BCJ_BAD, F_2STREAMS, F_BIGBLK, F_BAD_MID3, F_UNSUP_2ND, F_INITFAIL_3RD, F_N };
+static const char *FN[] = { "2blk", "3blk", "badcheck-last", "bad-first", "trunc-mid", "unsized-mid", "empty-mid", "bad-blockheader", "bad-index", "bcj-bad-payload", "2streams+pad", "big-40k", "bad-mid-of-3", "unsupported-filter-2nd", "filter-init-fails-3rd" };
+typedef struct { int file, threads, inchunk, outchunk, timeout; uint32_t flags; uint64_t mlt, mls; int raise, early, reinit, probes; int bp, bt, bs; int tier; int mode; } row;	// mode: 0 normal, 1 truncation sweep over the second Block, 2 drain with no input after the Blocks were supplied
 #define NOLIM UINT64_MAX
 // tier: 0 = quick+thorough, 1 = thorough only.  bp/bt/bs = preemption / timeout / spurious bounds at quick; thorough adds 1 to bp for 2-thread rows.
 static const row ROWS[] = {
@@ -60,8 +60,17 @@ static const row ROWS[] = {
 	{ F_UNSUP_2ND,      2, 0,  0,  0, 0,                    NOLIM, NOLIM, 0,    0,    0,     0,     2, 0, 0, 0 },	// later Block needs an unsupported filter: earlier output must still be delivered
 	{ F_UNSUP_2ND,      3, 0,  2,  0, 0,                    NOLIM, NOLIM, 0,    0,    0,     0,     1, 0, 0, 0 },
 	{ F_BADCHECK_LAST,  2, 0,  0,  0, 0,                    NOLIM, NOLIM, 0,    0,    -2,    0,     1, 0, 0, 0 },	// re-init (every k) where the FIRST session used IGNORE_CHECK|CONCATENATED|FAIL_FAST: flags must not stick
+	{ F_INITFAIL_3RD,   2, 0,  0,  0, 0,                    NOLIM, NOLIM, 0,    0,    0,     0,     1, 0, 0, 0 },	// third Block's chain decodes from the header but its filter refuses to initialise (worker reused)
+	{ F_INITFAIL_3RD,   1, 0,  2,  0, 0,                    NOLIM, NOLIM, 0,    0,    0,     0,     2, 0, 0, 0 },
+	{ F_INITFAIL_3RD,   2, 5,  0,  0, 0,                    NOLIM, NOLIM, 0,    0,    -1,    0,     1, 0, 0, 0 },
+	{ F_2BLK,           2, 0,  0,  0, 0,                    NOLIM, NOLIM, 0,    0,    0,     0,     1, 0, 0, 0, 1 },	// input ends at every offset of the second Block
+	{ F_2BLK,           2, 3,  2,  0, 0,                    NOLIM, NOLIM, 0,    0,    0,     0,     1, 0, 0, 0, 1 },
+	{ F_3BLK,           2, 0,  3,  0, 0,                    NOLIM, NOLIM, 0,    0,    0,     0,     1, 0, 0, 0, 2 },	// all Blocks supplied, then LZMA_RUN calls without input until everything decodable has arrived
+	{ F_2BLK,           2, 7,  1,  0, 0,                    NOLIM, NOLIM, 0,    0,    0,     0,     1, 0, 0, 0, 2 },
+	{ F_3BLK,           3, 7,  1,  0, 0,                    NOLIM, NOLIM, 0,    0,    0,     0,     1, 0, 0, 1, 2 },
 	{ F_BIGBLK,         2, 0,  0,  0, 0,                    NOLIM, NOLIM, 0,    0,    0,     0,     1, 0, 0, 0 },
 	{ F_BIGBLK,         2, 4096, 8192, 0, 0,                NOLIM, NOLIM, 0,    0,    0,     1,     1, 0, 0, 1 },
+	{ F_BIGBLK,         2, 0,  4096, 0, 0,                  NOLIM, NOLIM, 0,    0,    0,     0,     1, 0, 0, 1, 2 },
 	{ F_3BLK,           2, 0,  0,  1, 0,                    NOLIM, NOLIM, 0,    0,    0,     0,     1, 2, 0, 1 },
 	{ F_3BLK,           3, 3,  1,  0, 0,                    NOLIM, NOLIM, 0,    0,    0,     0,     1, 0, 0, 1 },
 	{ F_UNSIZED_MID,    3, 0,  1,  1, 0,                    NOLIM, NOLIM, 0,    -1,   0,     0,     1, 1, 0, 1 },
@@ -73,18 +82,19 @@ static const row ROWS[] = {
 #define NROWS ((int)(sizeof ROWS / sizeof ROWS[0]))
 
 // ---- input construction ----------------------------------------------------------------------------
-static unsigned char plain[65536], comp[65536 + 4096]; static size_t plen, clen;
+static unsigned char plain[65536], comp[65536 + 4096]; static size_t plen, clen, full_clen; static mk_layout LAY;
 static int build_file(int kind) {
 	size_t bsz = 6; mk_block b[4]; int nb = 2; mk_layout lay; memset(&lay, 0, sizeof lay);
 	for (size_t i = 0; i < sizeof plain; i++) plain[i] = "abcab"[i % 5] ^ (unsigned char)((i / 1500) * 3);
 	plain[0] = 0xE8;
 	switch (kind) {
-	case F_3BLK: case F_BAD_MID3: nb = 3; break;
+	case F_3BLK: case F_BAD_MID3: case F_INITFAIL_3RD: nb = 3; break;
 	case F_UNSIZED_MID: case F_EMPTY_MID: nb = 3; break;
 	case F_BIGBLK: nb = 2; bsz = 40000 / 2 + 500; break;
 	}
 	for (int i = 0; i < nb; i++) b[i] = (mk_block){ plain + i * bsz, bsz, 1, kind == F_BCJ_BAD ? 2 : 0 };
 	if (kind == F_UNSIZED_MID) b[1].sized = 0;
+	if (kind == F_INITFAIL_3RD) b[2].chain = 3;
 	if (kind == F_EMPTY_MID) { b[1].len = 0; b[2].data = plain + bsz; }
 	plen = 0; for (int i = 0; i < nb; i++) plen += b[i].len;
 	clen = mk_xz(comp, sizeof comp, b, nb, LZMA_CHECK_CRC32, &lay); if (!clen) return -1;
@@ -98,8 +108,11 @@ static int build_file(int kind) {
 	case F_BCJ_BAD: comp[lay.off[0] + lay.hdr[0] + 4] ^= 0x10; break;
 	case F_UNSUP_2ND: { unsigned char *h = comp + lay.off[1]; size_t hs = lay.hdr[1]; int done = 0; for (size_t q = 2; q + 6 < hs && !done; q++) if (h[q] == 0x21 && h[q + 1] == 0x01) { h[q] = 0x03; h[q + 2] = 0x00; done = 1; }	/* LZMA2 -> lone Delta: decodable header, unusable chain */
 		if (!done) return -1; uint32_t c = lzma_crc32(h, hs - 4, 0); h[hs - 4] = c; h[hs - 3] = c >> 8; h[hs - 2] = c >> 16; h[hs - 1] = c >> 24; break; }
+	case F_INITFAIL_3RD: { unsigned char *h = comp + lay.off[2]; size_t hs = lay.hdr[2]; int done = 0; for (size_t q = 2; q + 6 < hs && !done; q++) if (h[q] == 0x07 && h[q + 1] == 0x04 && h[q + 2] == 0x04) { h[q + 2] = 0x01; done = 1; }	/* ARM start_offset 4 -> 1: header decodes, lzma_raw_decoder_memusage() accepts, filter init says LZMA_OPTIONS_ERROR */
+		if (!done) return -1; uint32_t c = lzma_crc32(h, hs - 4, 0); h[hs - 4] = c; h[hs - 3] = c >> 8; h[hs - 2] = c >> 16; h[hs - 1] = c >> 24; break; }
 	case F_2STREAMS: { size_t one = clen; memset(comp + clen, 0, 8); memcpy(comp + one + 8, comp, one); clen = 2 * one + 8; memcpy(plain + plen, plain, plen); plen *= 2; break; }
 	}
+	full_clen = clen; LAY = lay;
 	return 0;
 }
 
@@ -107,20 +120,28 @@ static int build_file(int kind) {
 #include "halloc.h"
 
 // ---- one execution -------------------------------------------------------------------------------
-typedef struct { lzma_ret r; size_t tout, tin; uint64_t h; int calls; int probe_bad; long leaked; } obs;
+typedef struct { lzma_ret r; size_t tout, tin; uint64_t h; int calls; int probe_bad; long leaked; int premature; size_t drain_out; } obs;
 static unsigned char dec[65536 + 4096];
-static const row *R; static int cur_early, cur_reinit;
+static const row *R; static int cur_early, cur_reinit; static size_t st_drain_out;
 
 static obs drive(lzma_stream *d, int mt) {
-	obs o = { 0, 0, 0, 0, 0, 0, 0 };
+	obs o = { 0, 0, 0, 0, 0, 0, 0, 0, 0 };
+	int draining = 0, drained = R->mode != 2; size_t feed_end = R->mode == 2 ? LAY.index_off : clen;
 	size_t pos = 0, ocap = 0; lzma_ret r = LZMA_OK; d->next_out = dec; int stall = 0; uint64_t lp_in = 0, lp_out = 0; int raised = 0;
 	for (;;) {
-		if (d->avail_in == 0 && pos < clen) { size_t n = R->inchunk && clen - pos > (size_t)R->inchunk ? (size_t)R->inchunk : clen - pos; d->next_in = comp + pos; d->avail_in = n; pos += n; }
+		if (!drained && d->avail_in == 0 && pos == feed_end) draining = 1;
+		if (drained && feed_end != clen) feed_end = clen;
+		if (!draining && d->avail_in == 0 && pos < feed_end) { size_t n = R->inchunk && feed_end - pos > (size_t)R->inchunk ? (size_t)R->inchunk : feed_end - pos; d->next_in = comp + pos; d->avail_in = n; pos += n; }
 		if (d->avail_out == 0 && ocap < sizeof dec) { size_t g = R->outchunk ? (size_t)R->outchunk : sizeof dec; if (g > sizeof dec - ocap) g = sizeof dec - ocap; d->avail_out = g; ocap += g; }
 		size_t bi = d->avail_in, bo = d->avail_out;
 		r = lzma_code(d, pos == clen ? LZMA_FINISH : LZMA_RUN); o.calls++;
 		if (mt && R->probes) { uint64_t pi, po; lzma_get_progress(d, &pi, &po);
 			if (pi < lp_in || po < lp_out || pi > pos || po > plen + 64) o.probe_bad = 1; lp_in = pi; lp_out = po; (void)lzma_memusage(d); }
+		if (draining) {	// no input: the single-threaded run stops at its first call without progress; the threaded run must reach the same amount of output before any LZMA_BUF_ERROR
+			int np = bi == d->avail_in && bo == d->avail_out;
+			if (!mt) { if (np || r != LZMA_OK) { o.drain_out = d->total_out; draining = 0; drained = 1; if (r == LZMA_OK) continue; } }
+			else { if (d->total_out >= st_drain_out) { draining = 0; drained = 1; } else if (r == LZMA_BUF_ERROR) { o.premature = 1; draining = 0; drained = 1; continue; } }
+		}
 		if (mt && cur_early && o.calls == cur_early) { r = 77; break; }
 		if (mt && cur_reinit && o.calls == cur_reinit) { r = 78; break; }
 		if (r == LZMA_OK) { if (bi == d->avail_in && bo == d->avail_out) { if (++stall > 200) { r = 97; break; } } else stall = 0; if (o.calls > 100000) { r = 96; break; } continue; }
@@ -152,13 +173,14 @@ static void body(void) {
 	last.leaked = atomic_load(&a_live);
 }
 
-static long n_exec, n_bad; static h_set obsset; static char rowname[160];
+static int st_reference(void) { lzma_stream d = LZMA_STREAM_INIT; if (lzma_stream_decoder(&d, UINT64_MAX, R->flags & LZMA_CONCATENATED) != LZMA_OK) return 1; st_obs = drive(&d, 0); st_drain_out = st_obs.drain_out; memcpy(st_out, dec, st_obs.tout); lzma_end(&d); st_done = 1; return 0; }
+static long n_exec, n_bad; static h_set obsset; static char rowname[160]; static int cur_trunc;
 static void sched_extra(char *b, size_t n) { size_t o = snprintf(b, n, "schedule=["); vs_schedule_string(b + o, n - o); o = strlen(b); o += snprintf(b + o, n - o, "] trace="); vs_trace_string(b + o, n - o); }
 static void on_fatal(const char *kind, const char *detail) {
 	char sch[1200], tr[1500]; vs_schedule_string(sch, sizeof sch); vs_trace_string(tr, sizeof tr);
 	char k[64]; snprintf(k, sizeof k, "%s", kind); for (char *c = k; *c; c++) if (*c == '(') { *c = 0; break; }
 	if (!strcmp(kind, "NONDETERMINISM")) { printf("NONDET row=%s schedule=[%s]\n", rowname, sch); }
-	else printf("FAIL key=sched:%s:mtdec:%s %s threads: %s schedule=[%s] early=%d reinit=%d trace: %s replay={\"harness\":\"c07_mtdec\",\"row\":\"%s\",\"early\":%d,\"reinit\":%d,\"schedule\":\"%s\"} ;;END\n", k, FN[R->file], kind, detail, sch, cur_early, cur_reinit, tr, rowname, cur_early, cur_reinit, sch);
+	else printf("FAIL key=sched:%s:mtdec:%s %s threads: %s schedule=[%s] early=%d reinit=%d trunc=%d trace: %s replay={\"harness\":\"c07_mtdec\",\"row\":\"%s\",\"early\":%d,\"reinit\":%d,\"trunc\":%d,\"schedule\":\"%s\"} ;;END\n", k, FN[R->file], kind, detail, sch, cur_early, cur_reinit, cur_trunc, tr, rowname, cur_early, cur_reinit, cur_trunc, sch);
 	printf("INCOMPLETE exploration of this shard ended by a fatal event (%s)\nDONE\n", kind); fflush(stdout);
 }
 static int quiet_check;
@@ -176,23 +198,24 @@ static int check_one(void) {
 	else if (last.r != st_obs.r) { bad = 1; why = "status"; }
 	else if (last.tout != st_obs.tout || last.h != st_obs.h) { bad = 1; why = "output"; }
 	if (last.probe_bad) { bad = 1; why = "progress-probe"; }
+	if (last.premature) { bad = 1; why = "buf-error-while-output-pending"; }
 	if (last.leaked) { bad = 1; why = "allocator-balance"; }
 	if (bad && quiet_check) return 1;
 	if (bad) { n_bad++; char sch[1200]; vs_schedule_string(sch, sizeof sch); char key[120]; snprintf(key, sizeof key, "mtdec:%s:%s", FN[R->file], why);
-		h_fail(key, "%s: mt(ret=%d out=%zu in=%zu calls=%d leaked=%ld) vs single-threaded(ret=%d out=%zu) row=%s early=%d reinit=%d schedule=[%s] replay={\"harness\":\"c07_mtdec\",\"row\":\"%s\",\"early\":%d,\"reinit\":%d,\"schedule\":\"%s\"}",
-			why, last.r, last.tout, last.tin, last.calls, last.leaked, st_obs.r, st_obs.tout, rowname, cur_early, cur_reinit, sch, rowname, cur_early, cur_reinit, sch); }
+		h_fail(key, "%s: mt(ret=%d out=%zu in=%zu calls=%d leaked=%ld) vs single-threaded(ret=%d out=%zu) row=%s early=%d reinit=%d trunc=%d schedule=[%s] replay={\"harness\":\"c07_mtdec\",\"row\":\"%s\",\"early\":%d,\"reinit\":%d,\"trunc\":%d,\"schedule\":\"%s\"}",
+			why, last.r, last.tout, last.tin, last.calls, last.leaked, st_obs.r, st_obs.tout, rowname, cur_early, cur_reinit, cur_trunc, sch, rowname, cur_early, cur_reinit, cur_trunc, sch); }
 	return bad;
 }
 // Replay before report: a mismatch is re-executed under exactly the same schedule; only if the observation repeats is it reported.
-static void body_checked(void) { H_CASE("c07_mtdec row=%s early=%d reinit=%d", rowname, cur_early, cur_reinit); body();
+static void body_checked(void) { H_CASE("c07_mtdec row=%s early=%d reinit=%d trunc=%d", rowname, cur_early, cur_reinit, cur_trunc); body();
 	quiet_check = 1; int bad = check_one(); quiet_check = 0;
 	if (bad) { obs a = last; int n = vs_npts; memcpy(vs_prefix, vs_choice, n * sizeof(int)); memcpy(vs_prefix_nen, vs_nen, n * sizeof(int)); vs_prefix_len = n; vs_begin(); body(); vs_end(); obs b = last;
-		if (a.r != b.r || a.tout != b.tout || a.h != b.h || a.leaked != b.leaked) { char sch[1200]; vs_schedule_string(sch, sizeof sch); printf("NONDET row=%s schedule=[%s]: the same schedule gave (ret=%d,out=%zu) then (ret=%d,out=%zu)\n", rowname, sch, a.r, a.tout, b.r, b.tout); return; } }
+		if (a.r != b.r || a.tout != b.tout || a.h != b.h || a.leaked != b.leaked || a.premature != b.premature) { char sch[1200]; vs_schedule_string(sch, sizeof sch); printf("NONDET row=%s schedule=[%s]: the same schedule gave (ret=%d,out=%zu) then (ret=%d,out=%zu)\n", rowname, sch, a.r, a.tout, b.r, b.tout); return; } }
 	check_one(); }
 
 static void row_name(const row *r, int idx) {
 	snprintf(rowname, sizeof rowname, "%d:%s,thr=%d,in=%d,out=%d,to=%d,fl=%#x,mlt=%s,mls=%s%s%s%s", idx, FN[r->file], r->threads, r->inchunk, r->outchunk, r->timeout, r->flags,
-		r->mlt == NOLIM ? "inf" : r->mlt == 1 ? "1" : "small", r->mls == NOLIM ? "inf" : "1+raise", r->early ? ",early-end" : "", r->reinit ? ",reinit" : "", r->probes ? ",probes" : "");
+		r->mlt == NOLIM ? "inf" : r->mlt == 1 ? "1" : "small", r->mls == NOLIM ? "inf" : "1+raise", r->early ? ",early-end" : "", r->reinit ? ",reinit" : "", r->probes ? ",probes" : ""); if (r->mode) { size_t l = strlen(rowname); snprintf(rowname + l, sizeof rowname - l, "%s", r->mode == 1 ? ",trunc-sweep" : ",drain"); }
 }
 static int parse_schedule(const char *s) {	// "i:c i:c" -> vs_prefix; options counts unknown (-1 = do not check)
 	int maxi = -1; memset(vs_prefix, 0, sizeof(int) * VS_MAXPTS);
@@ -207,10 +230,11 @@ int main(int argc, char **argv) {
 	int ri = atoi(argv[2]); if (ri < 0 || ri >= NROWS) return 2; R = &ROWS[ri]; row_name(R, ri);
 	if (build_file(R->file)) { printf("NOTE cannot build file for row %s\nDONE\n", rowname); return 0; }
 	// single-threaded reference (same slicing), outside the scheduler: the ST decoder makes no pthread calls
-	{ lzma_stream d = LZMA_STREAM_INIT; if (lzma_stream_decoder(&d, UINT64_MAX, R->flags & LZMA_CONCATENATED) != LZMA_OK) return 2; st_obs = drive(&d, 0); memcpy(st_out, dec, st_obs.tout); lzma_end(&d); st_done = 1; }
+	if (st_reference()) return 2;
 	vs_allow_timeouts = R->timeout != 0;
 	if (!strcmp(argv[1], "replay")) {
 		cur_early = argc > 4 ? atoi(argv[4]) : 0; cur_reinit = argc > 5 ? atoi(argv[5]) : 0; vs_allow_spurious = R->bs > 0;
+		if (argc > 6 && atoi(argv[6]) > 0) { cur_trunc = atoi(argv[6]); clen = (size_t)cur_trunc; if (st_reference()) return 2; }
 		int n = parse_schedule(argc > 3 ? argv[3] : ""); for (int i = 0; i < n; i++) vs_prefix_nen[i] = -1;
 		// replay twice: identical observations required
 		obs a, b2; for (int k = 0; k < 2; k++) { vs_prefix_len = 0; /* choices applied through a permissive prefix */
@@ -227,8 +251,11 @@ int main(int argc, char **argv) {
 	vs_stats tot = { 0 }; int kmax = 0; int kcap = thorough ? 12 : 6;
 	if (R->early || R->reinit) {	// learn the number of calls of the default schedule, then sweep k
 		cur_early = cur_reinit = 0; vs_prefix_len = 0; vs_begin(); body(); vs_end(); kmax = last.calls > kcap ? kcap : last.calls; }
-	for (int k = (kmax ? 1 : 0); k <= kmax; k++) { if (k_from >= 0 && k < k_from) continue;
+	int kmin = kmax ? 1 : 0;
+	if (R->mode == 1) { kmin = (int)LAY.off[1]; kmax = (int)(LAY.off[1] + LAY.total[1]) - 1; }
+	for (int k = kmin; k <= kmax; k++) { if (k_from >= 0 && k < k_from) continue;
 		cur_early = R->early ? k : 0; cur_reinit = R->reinit ? k : 0;
+		if (R->mode == 1) { cur_trunc = k; clen = (size_t)k; if (st_reference()) return 2; }
 		vs_stats st; vs_explore(body_checked, &b, shard, nsh, &st, h_expired);
 		if (vs_dumped) { printf("CONTINUE k=%d\n", k); tot.executions += st.executions; tot.transitions += st.transitions; tot.points += st.points; if (st.max_points > tot.max_points) tot.max_points = st.max_points; break; }
 		tot.executions += st.executions; tot.transitions += st.transitions; tot.points += st.points; if (st.max_points > tot.max_points) tot.max_points = st.max_points; tot.switches += st.switches; tot.with_timeouts += st.with_timeouts; tot.incomplete |= st.incomplete;
